@@ -18,7 +18,10 @@ RULE = ("seeded evaluations of 1-3 environment configurations (spot, user-define
         "strict alternation) with foreign writes to the process-wide contract clock and foreign draws from the global PRNGs "
         "in between; the reference episode on a fresh environment. Oracles are bit-for-bit equality of the complete per-"
         "environment logs (observations, rewards, done flags, trades, holdings, NLV, track record, every observer callback, "
-        "clocks): interleaved == alone, after-prefix == fresh, first play == second play. Non-trivial: >=2 environments or "
+        "clocks): interleaved == alone, after-prefix == fresh, first play == second play. In 30 % of the environments the running "
+        "environment object is copied mid-episode (copy.deepcopy or a pickle round trip; a checkpoint) and both objects are stepped "
+        "from then on, the copy before or after the original: what a caller sees of the copy (observation, reward, done, holdings, "
+        "NLV, last track-record entry) must equal the original's, and the original must be undisturbed (its second play has no copy). Non-trivial: >=2 environments or "
         ">=1 prefix episode, >=1 trade, >=1 probe; distinct = (env kinds, prefix kinds, call-order string)")
 ASSUMPTIONS = [
     "each environment owns its Transmitter and observers (sharing a Transmitter is sharing state by construction)",
@@ -28,7 +31,7 @@ ASSUMPTIONS = [
 ]
 COMPONENTS = {"real": ["TradingEnv", "Transmitter", "Broker", "Exchange", "IState", "Feature", "FutureChain", "AbstractContract.now"],
               "harness": ["seeded call-level scheduler", "recording observers", "fault ops (clock write, PRNG draw)"], "stub": []}
-PROBE_FLOORS = {"folds_split_at_the_intraday_cutoff_of_a_roll_day": 5, "chain_environment_with_folds": 60, "two_chain_envs_different_leads": 8, "prefix_malformed_action": 34, "prefix_missing_price": 3, "prefix_ruin": 5,
+PROBE_FLOORS = {"copy_and_original_stepped_side_by_side": 400, "running_environment_copied_by_pickle": 35, "running_environment_copied_by_deepcopy": 40, "folds_split_at_the_intraday_cutoff_of_a_roll_day": 5, "chain_environment_with_folds": 60, "two_chain_envs_different_leads": 8, "prefix_malformed_action": 34, "prefix_missing_price": 3, "prefix_ruin": 5,
                 "prefix_abandoned_at_step_0": 18, "clock_left_in_future_by_prefix": 82, "interleaved_envs_ge_2": 59,
                 "foreign_clock_write": 47, "foreign_prng_draw": 50, "prefix_on_other_fold": 6, "timesteps_without_events": 14, "prefix_observer_crash_fired": 23, "two_envs_sharing_the_default_reward_object": 4, "observer_crash_during_reset": 16, "observer_crash_during_step": 8}
 
@@ -245,7 +248,14 @@ def generate(rng, i):
             kinds.append(kind)
         seed = rng.randrange(2 ** 31)
         ref_ops = [{"op": "reset", "env": tag, "fold": meta.get("fold"), "np_seed": seed, "ref": True}] + [{"op": "step", "env": tag, "action": a} for a in ref]
-        ops += ref_ops + copy.deepcopy(ref_ops)
+        second = copy.deepcopy(ref_ops)
+        if rng.random() < 0.3 and ref:
+            # checkpoint of the running episode: the environment object is copied (deepcopy / pickle round trip) after j
+            # steps and both objects are stepped from then on; only in the first play, so that the second play also
+            # shows that being copied did not disturb the original
+            how = "deepcopy" if env.get("state", {}).get("twin_class") or rng.random() < 0.5 else "pickle"
+            ref_ops.insert(1 + rng.randint(0, len(ref) - 1), {"op": "fork", "env": tag, "how": how, "clone_first": rng.random() < 0.5})
+        ops += ref_ops + second
         envs.append(env)
         metas.append(meta)
         per_env.append(ops)
@@ -280,13 +290,13 @@ def generate(rng, i):
 
 
 # ---------------------------------------------------------------------------
-DROP = ("seq", "end_seq")
+DROP = ("seq", "end_seq", "clones", "self_view")
 
 
 def norm_records(sim, tag):
     out = []
     for r in sim.sink.records:
-        if r.get("env") != tag:
+        if r.get("env") != tag or r.get("kind") == "fork":
             continue
         # the process-wide clock as seen *between* calls is not an output of this environment
         # (nor is what a chain resolves to under that clock); inside calls both are recorded by callbacks and EXEC markers
@@ -356,6 +366,32 @@ def execute(scenario):
                 "ABC"[tag], scenario["meta"]["kinds"][tag], n_env - 1, i, kind, keys,
                 {k: x.get(k) for k in keys} if isinstance(x, dict) else x, {k: y.get(k) for k in keys} if isinstance(y, dict) else y),
                 kind=kind or "length", field=keys[0] if keys else "?", envkind=scenario["meta"]["kinds"][tag])
+            break
+        bad_fork = None
+        for run_name, run in (("alone", alone), ("interleaved", inter)):
+            for r in run.sink.records:
+                if r.get("env") != (0 if run is alone else tag):
+                    continue
+                if r.get("kind") == "fork":
+                    if r.get("exc"):
+                        bad_fork = "copying the running environment ({}) failed: {} {}".format(r["how"], r["exc"], r.get("msg"))
+                    else:
+                        probe("running_environment_copied_by_" + r["how"])
+                elif r.get("kind") == "step" and r.get("clones"):
+                    for cv in r["clones"]:
+                        if cv != r["self_view"]:
+                            keys = sorted(k for k in set(cv) | set(r["self_view"]) if cv.get(k) != r["self_view"].get(k))
+                            bad_fork = "step {} ({}): the copied environment and the original, given the same action, differ in {}: copy {} / original {}".format(
+                                r.get("k"), run_name, keys, {k: cv.get(k) for k in keys[:3]}, {k: r["self_view"].get(k) for k in keys[:3]})
+                            break
+                    else:
+                        probe("copy_and_original_stepped_side_by_side")
+                if bad_fork:
+                    break
+            if bad_fork:
+                break
+        if bad_fork:
+            violate("isolation", "environment {}: {}".format("ABC"[tag], bad_fork), kind="fork", field="copy", envkind=scenario["meta"]["kinds"][tag])
             break
         eps = split_episodes(rec_alone)
         if len(eps) >= 2:
